@@ -163,6 +163,7 @@ int main(void)
 	do_static_ecdh(&sctx, prf);
 	CHECK(kx_calls == 1 && cm_calls == 1 && cm_len == 32 && cm_prf == prf, "one key exchange over the certified point, one master-secret computation");
 	for (size_t i = 0; i < 32; i++) CHECK(cm_pms[i] == (kx_ok ? kx_plain[i] : drbg_out[i]), "static ECDH: shared secret used only when the key exchange succeeded; random otherwise");
+	CHECK(drbg_calls == 1 && drbg_len == 32, "random substitute drawn on both outcomes (no call pattern depending on the secret validity bit)");
 	if (kx_ok) { WITNESS_POINT("static ecdh ok"); } else { WITNESS_POINT("static ecdh bad"); }
 #else
 	unsigned char cpoint[133];
@@ -176,6 +177,7 @@ int main(void)
 	CHECK(kx_calls == 1 && cm_calls == 1 && cm_len == kx_outlen && cm_prf == prf, "one key exchange, one master-secret computation over the X coordinate");
 	for (size_t i = 0; i < 33; i++) if (i < kx_outlen) CHECK(cm_pms[i] == (kx_ok ? kx_plain[i] : drbg_out[i]), "shared secret used only when the point was valid; random otherwise");
 	for (size_t i = 0; i < 33; i++) if (i < kx_outlen) CHECK(cpoint[i] == 0, "shared secret wiped");
+	CHECK(drbg_calls == 1 && drbg_len == kx_outlen, "random substitute drawn on both outcomes (no call pattern depending on the secret validity bit)");
 	if (kx_ok) { WITNESS_POINT("ecdh ok"); } else { WITNESS_POINT("ecdh bad"); }
 #endif
 	return 0;
